@@ -472,3 +472,150 @@ class LazyList:
 
     def __iter__(self):
         return iter(self.fn())
+
+
+# =========================================================================== accrued_interest (C06)
+from pyvc.models import pow_
+
+
+def seconds_in_year(I):
+    from pyvc import front, models
+    v = models.global_name(I, REL, "SECONDS_IN_YEAR") if I.frames else None
+    return v
+
+
+def interest_formula(amount, r, m, y):
+    """C06: idle cash grows at (rate - markup), borrowed cash is charged at (rate + markup), compounded,
+    pro-rated by y = elapsed seconds / (365 days); positive balances are never charged."""
+    pos = amount * (pow_(1 + r - m, y) - 1)
+    neg = amount * (pow_(1 + r + m, y) - 1)
+    return z3.If(amount > 0, z3.If(pos < 0, 0, pos), z3.If(amount < 0, neg, 0))
+
+
+def pow_axioms(b, y):
+    """the instantiated real-exponent axioms the engine adds for each `**` site (A3), for spec-side terms"""
+    t = pow_(b, y)
+    return z3.And(z3.Implies(y == 0, t == 1), z3.Implies(b > 0, t > 0), z3.Implies(z3.And(b >= 1, y >= 0), t >= 1),
+                  z3.Implies(z3.And(b > 0, b <= 1, y >= 0), t <= 1), z3.Implies(b == 1, t == 1))
+
+
+@register
+class AccruedInterest(Contract):
+    relpath, qual = REL, "Broker.accrued_interest"
+    props = ("C06", "C01")
+    SECONDS = 365 * 24 * 60 * 60
+
+    def pre_state(self, I):
+        has_last = I.choice(2) == 1
+        b = mk_broker(I, last_accrual="sym" if has_last else "none")
+        accrue = [False, True][I.choice(2)]
+        return {"self": b, "now": I.fl("now"), "accrue": accrue}
+
+    def rate_key(self, c):
+        fees = c.I.heap[c.self.oid]["fees"]
+        return c.I.heap[fees.oid]["interest_rate"].t, c.I.heap[fees.oid]["markup"].v
+
+    def requires(self, c):
+        I = c.I
+        v = SymBrokerView(I, c.self)
+        rk, mk = self.rate_key(c)
+        r = (v.bid(rk) + v.ask(rk)) / 2
+        return [
+            Cl("cash_ok", cash_ok(v)),
+            Cl("rate_quoted", z3.And(z3.Not(v.bid_nan(rk)), z3.Not(v.ask_nan(rk)), static_key(rk), rk != v.cash)),
+            Cl("markup", z3.And(mk >= 0, 1 + r - mk > 0)),      # the property's quantifier
+            Cl("now_is_a_time", z3.Not(lift_fl(c.now).nan)),
+            PW("sh_idempotent", lambda k: sh(sh(k)) == sh(k)),
+        ] + self.pow_facts(c)
+
+    def pow_facts(self, c):
+        # AXIOM real-exponent laws of `**` (A3), instantiated at the two spec-side sites
+        l0 = c.I.heap[c.self.oid]["_last_accrual"]
+        now = lift_fl(c.now).v
+        y = (now - (now if l0 is None else l0.v)) / self.SECONDS
+        v = SymBrokerView(c.I, c.self)
+        rk, mk = self.rate_key(c)
+        r = (v.bid(rk) + v.ask(rk)) / 2
+        return [Cl("pow_axioms", z3.And(pow_axioms(1 + r - mk, y), pow_axioms(1 + r + mk, y)))]
+
+    def last0(self, c):
+        return c.old[c.self.oid]["_last_accrual"]
+
+    def raises(self, c):
+        l0 = self.last0(c)
+        when = FALSE if l0 is None else lift_fl(c.now).v < l0.v
+        return {"ValueError": {"when": when, "post": []}}        # nothing modified (frame check)
+
+    def amount(self, c):
+        I = c.I
+        vo = SymBrokerView(I, c.self, c.old)
+        rk, mk = self.rate_key(c)
+        l0 = self.last0(c)
+        now = lift_fl(c.now).v
+        y = (now - (now if l0 is None else l0.v)) / self.SECONDS
+        r = (vo.bid(rk) + vo.ask(rk)) / 2
+        return interest_formula(vo.qty(vo.cash), r, mk, y), y, r, mk
+
+    def modifies(self, c):
+        q, m, l = bmaps(c.I.heap, c.self)
+        return [("entry", q, c.I.heap[c.self.oid]["base_currency"].t), ("field", c.self, "_last_accrual")]
+
+    def havoc(self, c):
+        I = c.I
+        vo = SymBrokerView(I, c.self, c.old)
+        q, m, l = bmaps(I.heap, c.self)
+        amt, y, r, mk = self.amount(c)
+        if c.accrue is True:
+            I.mset(q, vo.cash, Fl(vo.qty(vo.cash) + amt))
+            I.fset(c.self, "_last_accrual", c.now)
+        elif c.accrue is False:
+            if self.last0(c) is None:
+                I.fset(c.self, "_last_accrual", c.now)       # recorded finding D11: a query starts the clock
+        else:
+            raise Unsupported("symbolic `accrue`")
+
+    def result(self, c):
+        return Fl(self.amount(c)[0])
+
+    def ensures(self, c):
+        I = c.I
+        vo, vn = SymBrokerView(I, c.self, c.old), SymBrokerView(I, c.self, c.new)
+        amt, y, r, mk = self.amount(c)
+        res = lift_fl(c.result)
+        l0 = self.last0(c)
+        l1 = c.new[c.self.oid]["_last_accrual"]
+        now = lift_fl(c.now).v
+        out = [
+            Cl("formula", z3.And(z3.Not(res.nan), res.v == amt)),
+            Cl("never_charges_positive", z3.Implies(vo.qty(vo.cash) > 0, res.v >= 0)),
+            Cl("same_instant_zero", z3.Implies(y == 0, res.v == 0)),
+            PW("only_cash_moves", lambda k: z3.And(z3.Implies(k != vo.cash, vn.qty(k) == vo.qty(k)),
+                                                   vn.margin(k) == vo.margin(k))),
+        ]
+        if c.accrue is True:
+            out.append(Cl("credited_once", z3.And(vn.qty(vo.cash) == vo.qty(vo.cash) + res.v,
+                                                  isinstance(l1, Fl) and l1.v == now)))
+        else:
+            same_clock = (l1 is None) if l0 is None else (isinstance(l1, Fl) and l1.v == l0.v)
+            q = Cl("query_changes_nothing", z3.And(vn.qty(vo.cash) == vo.qty(vo.cash),
+                                                   z3.BoolVal(same_clock) if isinstance(same_clock, bool) else same_clock))
+            q.known = [("D11", z3.BoolVal(l0 is None))]
+            out.append(q)
+        return out
+
+    def perturbed(self, c):
+        amt, y, r, mk = self.amount(c)
+        res = lift_fl(c.result)
+        vo = SymBrokerView(c.I, c.self, c.old)
+        wrong = interest_formula(vo.qty(vo.cash), r, -mk, y)      # markup with the wrong sign
+        return [Cl("formula_with_markup_sign_flipped", z3.Or(res.v == wrong + z3.If(mk == 0, 1, 0), y == 0, vo.qty(vo.cash) == 0))]
+
+    def witness(self, c):
+        I = c.I
+        v = SymBrokerView(I, c.self)
+        rk, mk = self.rate_key(c)
+        l0 = I.heap[c.self.oid]["_last_accrual"]
+        w = {"cash0": v.qty(v.cash), "rate_bid": v.bid(rk), "rate_ask": v.ask(rk), "markup": mk, "now": lift_fl(c.now).v}
+        if l0 is not None:
+            w["last_accrual"] = l0.v
+        return w
